@@ -354,7 +354,8 @@ impl<'w> Ctx<'w> {
                     let fname = match &fv.member { Member::Named(i) => i.to_string(), _ => return Err("tuple struct literal".into()) };
                     if self.w.partial_structs.contains(&name) && !fields.iter().any(|(n, _)| *n == fname) {
                         // a field outside `only=`: invisible to every translated function (its initialiser must be a plain path)
-                        if !matches!(strip_ref(&fv.expr), Expr::Path(_) | Expr::Field(_)) { return Err("initialiser of an untranslated field".into()); }
+                        let is_default_call = matches!(strip_ref(&fv.expr), Expr::Call(c) if c.args.is_empty() && matches!(&*c.func, Expr::Path(p) if p.path.segments.last().map_or(false, |s| s.ident == "default")));
+                        if !matches!(strip_ref(&fv.expr), Expr::Path(_) | Expr::Field(_) | Expr::Lit(_)) && !is_default_call { return Err("initialiser of an untranslated field".into()); }
                         continue;
                     }
                     let fty = fields.iter().find(|(n, _)| *n == fname).ok_or("unknown field")?.1.clone();
